@@ -215,6 +215,10 @@ func Worker(t *testing.T) {
 		env.Mark(seed)
 		rng := sim.NewRand(sim.Mix(seed))
 		c := p.Gen(rng, env.Tier)
+		if os.Getenv("VERIF_DUMPCASE") != "" {
+			b, _ := json.Marshal(c)
+			fmt.Fprintf(os.Stderr, "case %d: %s\n", seed, b)
+		}
 		c.Property, c.Seed = env.Prop, seed
 		o := p.Exec(t, c, nil)
 		res.Runs++
